@@ -109,7 +109,7 @@ structure Cfg where
   atomicClose : Bool := false
   /-- F10 (runtime level) repaired: CAS on `runtime.closed` and `Store.CloseWithExitCode` are one atomic action. -/
   atomicRtClose : Bool := false
-  /-- F24 repaired: the close notifier is attached before the instance is registered. -/
+  /-- F10c repaired: the close notifier is attached before the instance is registered. -/
   notifierAtRegister : Bool := false
 deriving Repr, DecidableEq, Hashable
 
